@@ -200,6 +200,7 @@ type Settings struct {
 	WatchWithoutClass bool
 	ClassPrecedence   bool
 	AllowCrossNS      bool // --allow-cross-namespace
+	GatewayV1         bool // Gateway API v1 CRDs are installed
 }
 
 // Env is one controller "process": config, client, facade, tracker, haproxy model.
@@ -236,6 +237,7 @@ func NewEnv(s Settings, objs ...client.Object) *Env {
 		IngressClassPrecedence:   s.ClassPrecedence,
 		WatchIngressWithoutClass: s.WatchWithoutClass,
 		ElectionNamespace:        "ingress-controller",
+		HasGatewayV1:             s.GatewayV1,
 	}
 	e := &Env{Dir: dir, Cfg: cfg, Cli: NewClient(objs...), Tracker: tracker.NewTracker(), Logger: &hvutil.Logger{Keep: true}}
 	// exactly what services.setup does
@@ -256,6 +258,7 @@ func NewEnv(s Settings, objs ...client.Object) *Env {
 		AnnotationPrefix: cfg.AnnPrefix,
 		FakeCrtFile:      convtypes.CrtFile{Filename: fakeFile, SHA1Hash: "fake", Certificate: fakeCrt},
 		FakeCAFile:       convtypes.CrtFile{Filename: fakeCA, SHA1Hash: "fakeca"},
+		HasGatewayV1:     cfg.HasGatewayV1,
 	}
 	return e
 }
